@@ -43,7 +43,8 @@ HandleCCR(db, c) ==
                g == IF exceeds THEN q ELSE amt
            IN [db |-> [db EXCEPT ![c.key] = W64(SSub(q, g))],
                ans |-> [got |-> TRUE, echo |-> TRUE, sid |-> c.sid, type |-> c.type, num |-> c.num, mscc |-> TRUE,
-                        granted |-> g.mag, fui |-> exceeds]]
+                        granted |-> IF SIsNeg(g) THEN SAdd(g, P64).mag ELSE g.mag,    \* Unsigned64(negative int64) wraps
+                        fui |-> exceeds]]
          ELSE IF c.type = "termination" THEN
            [db |-> [db EXCEPT ![c.key] = W64(SSub(q, amt))], ans |-> NoMscc(c, TRUE)]
          ELSE [db |-> db, ans |-> NoMscc(c, TRUE)]
